@@ -50,7 +50,8 @@ def check(cx):
         gen = "<'_>" if adt.endswith("Ref") else ""
         # ---- C19.1 one projection for Eq / Ord / Hash --------------------------------------------
         r1 = cx.rule("C19.1", "SIB: PartialEq, PartialOrd and Hash of DataType and DataTypeRef project every numeric "
-                     "variant onto the same representation (f64) before comparing/hashing — equal values hash equally", floor=6)
+                     "variant onto the same representation (f64) before comparing/hashing — equal values hash equally; eq and partial_cmp use "
+                     "the same float comparison (IEEE or total order, not one each)", floor=8)
         feq = cx.guard(r1, short + ":eq", p.fn, "<%s%s as std::cmp::PartialEq>::eq" % (adt, gen))
         ford = cx.guard(r1, short + ":partial_cmp", p.fn, "<%s%s as std::cmp::PartialOrd>::partial_cmp" % (adt, gen))
         fh = cx.guard(r1, short + ":hash", p.fn, "<%s%s as std::hash::Hash>::hash" % (adt, gen))
@@ -62,6 +63,15 @@ def check(cx):
             isnum = [c for c in f.calls() if c.callee.endswith("::is_numeric")]
             cx.verdict(len(uses) >= 2 and bool(isnum), r1, "%s:%s:numeric-via-f64" % (short, nm), f.where(),
                        "numeric operands are compared through to_f64()", "%s of %s no longer routes numeric operands through to_f64()" % (nm, short))
+        # equality and ordering use one float comparison: IEEE `==`/partial_cmp in both, or the total order in both
+        # (eq by total_cmp makes -0.0 != 0.0 while partial_cmp still answers Equal)
+        if feq and ford:
+            tot = {nm: any(c.callee.rsplit("::", 1)[-1] in ("total_cmp", "to_bits") for g_ in [f_.id] + list(p.closure_children.get(f_.id, ())) for c in p.fns[g_].calls())
+                   for nm, f_ in (("eq", feq), ("partial_cmp", ford))}
+            cx.verdict(tot["eq"] == tot["partial_cmp"], r1, "%s:eq-and-ord-same-float-comparison" % short, feq.where(),
+                       "eq and partial_cmp both use the %s float comparison" % ("total-order" if tot["eq"] else "IEEE"),
+                       "eq uses %s and partial_cmp uses %s float comparison for %s: x = y and `x >= y AND x <= y` disagree for signed zeros" % (
+                           "the bit-level/total-order" if tot["eq"] else "the IEEE", "the bit-level/total-order" if tot["partial_cmp"] else "the IEEE", short))
         if fh:
             pr = projections(p, fh, adt)
             if not pr:
@@ -179,3 +189,9 @@ def check(cx):
         want = {(prim, "MAX")} | ({(prim, "MIN")} if prim.startswith("i") else set())
         cx.verdict(bounds == want, r4, "%s->%s:bounds" % (src, tgt), f.where(), "range bounds %s" % sorted(bounds),
                    "casting %s to %s checks the range against %s instead of %s" % (src, tgt, sorted(bounds), sorted(want)))
+
+
+    # ---- C19.5 (construct shared with C05.6) ---------------------------------------------------------------------------
+    from . import c05
+    cx.include(c05, {"C05.6"}, "C19.5", "shared with C05.6: an index bound compares the stored values with the literal as written; a literal cast to "
+               "the column type (DOUBLE -> INT truncates) makes the index order disagree with the comparison the query states", floor=13)
